@@ -185,11 +185,17 @@ def _small_setup(total, n_obs, rng, scale=None):
     return fore, cat
 
 
-def ex_e2e_poisson(ctx, total, n_obs, scale=None, seed=0):
+def ex_e2e_poisson(ctx, total, n_obs, scale=None, seed=0, rescale_history=None):
     import csep.core.poisson_evaluations as pe
     rng = numpy.random.default_rng([seed, 7])
     fore, cat = _small_setup(total, n_obs, rng, scale)
-    case = {"exec": "e2e_poisson", "args": {"total": total, "n_obs": n_obs, "scale": scale, "seed": seed}}
+    if rescale_history:
+        # history on one forecast object: the total is read (event_count / an N-test), then the same object is re-scaled
+        for f_ in rescale_history:
+            ctx.call(pe.number_test, fore, cat)
+            ctx.call(lambda: fore.event_count)
+            fore.scale(f_)
+    case = {"exec": "e2e_poisson", "args": {"total": total, "n_obs": n_obs, "scale": scale, "seed": seed, "rescale_history": rescale_history}}
     ok, res, tb = ctx.call(pe.number_test, fore, cat)
     ctx.mon("e2e:poisson number_test", 1)
     if not ok:
@@ -197,7 +203,7 @@ def ex_e2e_poisson(ctx, total, n_obs, scale=None, seed=0):
         return
     mu = float(math.fsum((fore._data * fore._scale).ravel().tolist()))
     ge, le, pmf = pois_tails(mu, n_obs)
-    tags = {"law": "poisson", "e2e": True, "scaled": scale is not None, "n_zero": n_obs == 0}
+    tags = {"law": "poisson", "e2e": True, "scaled": scale is not None, "n_zero": n_obs == 0, "rescale_history": bool(rescale_history), "n_obs_large": n_obs > 16384}
     if res.observed_statistic != n_obs:
         ctx.violate("n_obs is not the catalog's event count", case, observed=res.observed_statistic, expected=n_obs, tags=tags)
     tol = TOL + 1e-9 * max(1.0, pmf * mu)      # d/dmu of the tails is bounded by pmf; total is a float sum
@@ -345,7 +351,7 @@ def run(ctx):
         n_obs = int(r.choice([0, 1, 2, max(0, int(total)), int(total) + 1, int(r.integers(0, 60)), int(total * 2)]))
         n_obs = min(n_obs, 4000)
         scale = None if j % 3 else float(r.choice([0.5, 2.0, 0.1, 7.0]))
-        ex_e2e_poisson(ctx, total, n_obs, scale, seed=j)
+        ex_e2e_poisson(ctx, total, n_obs, scale, seed=j, rescale_history=None if j % 4 else [float(r.choice([2.0, 0.5, 3.0])), float(r.choice([0.25, 1.0, 5.0]))])
         ex_e2e_nbd(ctx, total, n_obs, total * (1 + 10 ** r.uniform(-2, 2)), seed=j)
         ctx.count(2)
         ctx.nt(digest(("e2e", j, ctx.seed, total, n_obs)))
@@ -359,6 +365,14 @@ def run(ctx):
             ctx.nt(digest(("emp", sizes.tolist(), nob)))
         if j % 20 == 0:
             ctx.sample({"e2e": True, "forecast_total": total, "n_obs": n_obs, "scale": scale, "synthetic_sizes": sizes.tolist(), "n_obs_emp": nob})
+    # ---- large observed counts through the public wrappers (n_obs up to 1e5 is in the domain)
+    for j, n_big in enumerate([16385, 20000, 50000, 100000] if thorough else [16385, 40000, 100000]):
+        if ctx.mine(j):
+            for fac in (0.97, 1.0, 1.02):
+                ex_e2e_poisson(ctx, n_big * fac, n_big, None, seed=1000 + j)
+                ex_e2e_nbd(ctx, n_big * fac, n_big, n_big * fac * 1.5, seed=1000 + j)
+                ctx.count(2)
+                ctx.nt(digest(("big", n_big, fac)))
     # ---- empirical multisets with heavy ties (primitive)
     for j in range(3000 if thorough else 200):
         if not ctx.mine(j):
